@@ -33,11 +33,16 @@ def _strategy():
                                                          {"op": "contend", "lower": True}] + sends + [{"op": "wait", "d": w2}] + more,
                         st.sampled_from([0.0, 0.001, 0.1]), st.sampled_from([0.3, 0.6, 1.0]), st.lists(send, min_size=1, max_size=4),
                         st.sampled_from([0.001, 0.249, 0.251, 0.6]), st.lists(st.one_of(send, contend, wait), max_size=5))
+    # second structured shape: start, then send attempts right around the end of the veto window of the initial claim
+    pattern2 = st.builds(lambda d, w1, sends, w2, more: [{"op": "start", "delay": d}, {"op": "wait", "d": w1}] + sends[:2] +
+                         [{"op": "wait", "d": w2}] + sends[2:] + more,
+                         st.sampled_from([0.0, 0.001]), st.sampled_from([0.2495, 0.2505, 0.251, 0.252, 0.254]),
+                         st.lists(send, min_size=2, max_size=4), st.sampled_from([0.001, 0.002, 0.004]), st.lists(st.one_of(send, wait), max_size=3))
     return st.fixed_dictionaries({
         "dll": st.sampled_from(["j1939-21", "j1939-21", "j1939-22"]),
         "aac": st.booleans(), "bypass": st.sampled_from([False, False, True]),
         "addr": st.sampled_from([0x20, 0x7F, 0x80, 0xC8, 0xF0, 0xF8, 0xFC, 0xFD, 0xFD]),
-        "ops": st.one_of(rnd, pattern),
+        "ops": st.one_of(rnd, rnd, pattern, pattern, pattern2),
         "dm1_tail": st.booleans(),
         "tx_pre": st.sampled_from([0.0, 0.0, 0.002, 0.005]),      # a frame write of the job thread waits that long before the bus
         "lat": st.lists(st.sampled_from(simbus.LATENCY_GRID[1:]), min_size=1, max_size=2),
